@@ -1646,6 +1646,7 @@ func ZipAll[T any]() func(Observable[Observable[T]]) Observable[[]T] {
 	return func(sources Observable[Observable[T]]) Observable[[]T] {
 		return NewObservableWithContext(func(subscriberCtx context.Context, destination Observer[[]T]) Teardown {
 			innerSub := NewSubscription(nil)
+			innerCount := 0
 
 			// First, we consume the high-order observable...
 			outerSub := ToSlice[Observable[T]]()(sources).
@@ -1653,6 +1654,8 @@ func ZipAll[T any]() func(Observable[Observable[T]]) Observable[[]T] {
 					subscriberCtx,
 					NewObserverWithContext(
 						func(ctx context.Context, flattenSources []Observable[T]) {
+							innerCount = len(flattenSources)
+
 							innerSub.Add(
 								// ...then we zip all inner observables.
 								zipAllInnerSubscriptions(ctx, flattenSources, destination),
@@ -1662,7 +1665,11 @@ func ZipAll[T any]() func(Observable[Observable[T]]) Observable[[]T] {
 							destination.ErrorWithContext(ctx, err)
 						},
 						func(ctx context.Context) {
-							destination.CompleteWithContext(ctx)
+							// The zipped inner sources complete the destination (zipInnerSubscription, onUpdate);
+							// completing it here would cut off inner sources that are still running.
+							if innerCount == 0 {
+								destination.CompleteWithContext(ctx)
+							}
 						},
 					),
 				)
